@@ -1,7 +1,382 @@
 package main
 
 import (
+	"context"
+	"fmt"
+	"io"
 	"net/http"
+	"strings"
+
+	"verif/mc"
 )
 
-func newMemTransport(h http.Handler, giveUp bool) http.RoundTripper { panic("memhttp not built yet") }
+// memhttp is a first-order model of net/http between httpgrpc.Channel (an
+// http.RoundTripper user) and httpgrpc's server handlers (http.Handler), built
+// on controlled primitives so that every interleaving is explored. It models:
+//
+//   - the transport's write loop copying the request body onto the connection
+//     (unbounded buffering: small-message abstraction of TCP);
+//   - RoundTrip returning once response headers are committed (first Flush or
+//     handler return), or with the context's error on cancellation;
+//   - response bytes travelling as flushed chunks; the response body reaching
+//     EOF only when ServeHTTP has returned;
+//   - the HTTP/1 server's early-response rule: committing the response headers
+//     with an unread request body first discards the request body until EOF
+//     (after which it reads as closed), or -- environment alternative standing
+//     for "more than 256 KB pending" -- gives up and closes the connection
+//     after the reply;
+//   - cancellation closing the connection; the server noticing a closed
+//     connection through failing body reads, and through its background read
+//     (which cancels the request context) only once the body has hit EOF;
+//   - the request context being cancelled when ServeHTTP returns.
+//
+// Not modelled: connection reuse, pipelining, 100-continue, HTTP/2, TLS,
+// socket back-pressure.
+
+const hugeCap = 1 << 20
+
+type memTransport struct {
+	h      http.Handler
+	giveUp bool
+}
+
+func newMemTransport(h http.Handler, giveUp bool) http.RoundTripper {
+	return &memTransport{h: h, giveUp: giveUp}
+}
+
+type memConn struct {
+	t *memTransport
+
+	reqCh      *mc.Chan[[]byte] // request body bytes on the wire; closed at body EOF
+	respCh     *mc.Chan[[]byte] // flushed response chunks; closed when ServeHTTP has returned
+	hdrCh      *mc.Chan[struct{}]
+	connClosed *mc.Chan[struct{}]
+	finished   *mc.Chan[struct{}] // client is done with the response
+	srvDone    *mc.Chan[struct{}]
+
+	// response head, valid once hdrCh is closed
+	status int
+	header http.Header
+}
+
+func (c *memConn) closeConn() { mc.CloseIfOpen(c.connClosed) }
+
+// isClosed is a visible read of the connection state.
+func (c *memConn) isClosed() bool {
+	return mc.Select(true, mc.RecvCase(c.connClosed)) == 0
+}
+
+func (c *memConn) finish() { mc.CloseIfOpen(c.finished) }
+
+func (t *memTransport) RoundTrip(req *http.Request) (*http.Response, error) {
+	ctx := req.Context()
+	if err := ctx.Err(); err != nil {
+		if req.Body != nil {
+			req.Body.Close()
+		}
+		return nil, err
+	}
+	c := &memConn{t: t,
+		reqCh:      mc.NewChan[[]byte](hugeCap).SetLabel("net.req"),
+		respCh:     mc.NewChan[[]byte](hugeCap).SetLabel("net.resp"),
+		hdrCh:      mc.NewChan[struct{}]().SetLabel("net.hdr"),
+		connClosed: mc.NewChan[struct{}]().SetLabel("net.closed"),
+		finished:   mc.NewChan[struct{}]().SetLabel("net.fin"),
+		srvDone:    mc.NewChan[struct{}]().SetLabel("srv.done"),
+	}
+	body := req.Body
+	// transport write loop
+	mc.GoNamed("mem-write", func() {
+		if body == nil {
+			mc.Close(c.reqCh)
+			return
+		}
+		buf := make([]byte, 32*1024)
+		for {
+			n, err := body.Read(buf)
+			if n > 0 {
+				if c.isClosed() {
+					return // write on a closed connection fails; the loop ends
+				}
+				mc.Send(c.reqCh, append([]byte(nil), buf[:n]...))
+			}
+			if err != nil {
+				if err == io.EOF {
+					mc.Close(c.reqCh)
+				} else {
+					// aborted body: the connection is torn down
+					c.closeConn()
+				}
+				return
+			}
+		}
+	})
+	// server side
+	sctx, scancel := mc.WithCancel(context.Background())
+	sreq := req.Clone(sctx)
+	sreq.RemoteAddr = "192.0.2.7:4321"
+	sreq.RequestURI = req.URL.RequestURI()
+	sreq.ContentLength = -1
+	rb := &memReqBody{c: c, cancelCtx: scancel}
+	sreq.Body = rb
+	w := &memRespWriter{c: c, rb: rb, hdr: http.Header{}}
+	mc.GoNamed("mem-server", func() {
+		t.h.ServeHTTP(w, sreq)
+		w.finishRequest()
+		scancel()
+		mc.Close(c.srvDone)
+	})
+	// transport: a cancelled request closes the connection
+	mc.GoNamed("mem-watch", func() {
+		if mc.Select(false, mc.RecvCase(mc.Wrap(ctx.Done())), mc.RecvCase(c.finished)) == 0 {
+			c.closeConn()
+		}
+	})
+	switch mc.Select(false, mc.RecvCase(c.hdrCh), mc.RecvCase(mc.Wrap(ctx.Done()))) {
+	case 0:
+	default:
+		c.closeConn()
+		c.finish()
+		return nil, ctx.Err()
+	}
+	resp := &http.Response{
+		StatusCode: c.status, Status: fmt.Sprintf("%d %s", c.status, http.StatusText(c.status)),
+		Proto: "HTTP/1.1", ProtoMajor: 1, ProtoMinor: 1,
+		Header: c.header, Request: req, ContentLength: -1,
+		Body: &memRespBody{c: c, ctx: ctx},
+	}
+	return resp, nil
+}
+
+// ---- server side
+
+type memReqBody struct {
+	mu        mc.Mutex
+	c         *memConn
+	left      []byte
+	sawEOF    bool
+	closed    bool
+	bg        bool
+	cancelCtx context.CancelFunc
+}
+
+// hitEOF starts the server's background read: from now on a closed connection
+// cancels the request context.
+func (b *memReqBody) hitEOF() {
+	b.sawEOF = true
+	if b.bg {
+		return
+	}
+	b.bg = true
+	c := b.c
+	cancel := b.cancelCtx
+	mc.GoNamed("mem-bgread", func() {
+		if mc.Select(false, mc.RecvCase(c.connClosed), mc.RecvCase(c.srvDone)) == 0 {
+			cancel()
+		}
+	})
+}
+
+func (b *memReqBody) Read(p []byte) (int, error) {
+	b.mu.Lock()
+	defer b.mu.Unlock()
+	if b.closed {
+		return 0, http.ErrBodyReadAfterClose
+	}
+	if len(p) == 0 {
+		return 0, nil
+	}
+	if len(b.left) == 0 {
+		if b.sawEOF {
+			return 0, io.EOF
+		}
+		data := mc.RecvCase(b.c.reqCh)
+		switch mc.Select(false, data, mc.RecvCase(b.c.connClosed)) {
+		case 0:
+			if !data.Ok {
+				b.hitEOF()
+				return 0, io.EOF
+			}
+			b.left = data.Val
+		default:
+			return 0, io.ErrUnexpectedEOF
+		}
+	}
+	n := copy(p, b.left)
+	b.left = b.left[n:]
+	return n, nil
+}
+
+func (b *memReqBody) Close() error {
+	b.mu.Lock()
+	defer b.mu.Unlock()
+	b.closed = true
+	return nil
+}
+
+func (b *memReqBody) state() (sawEOF, closed bool) {
+	b.mu.Lock()
+	defer b.mu.Unlock()
+	return b.sawEOF, b.closed
+}
+
+type memRespWriter struct {
+	c   *memConn
+	rb  *memReqBody
+	hdr http.Header
+
+	wroteHeader bool
+	status      int
+	snapshot    http.Header
+	committed   bool
+	pending     []byte
+	closeAfter  bool
+	broken      bool // bytes were dropped on a closed connection: the body can no longer end cleanly
+}
+
+func (w *memRespWriter) Header() http.Header { return w.hdr }
+
+func (w *memRespWriter) WriteHeader(code int) {
+	if w.wroteHeader {
+		return
+	}
+	w.wroteHeader = true
+	w.status = code
+	w.snapshot = w.hdr.Clone()
+}
+
+func (w *memRespWriter) Write(b []byte) (int, error) {
+	if !w.wroteHeader {
+		w.WriteHeader(http.StatusOK)
+	}
+	if w.c.isClosed() {
+		return 0, fmt.Errorf("write: connection closed")
+	}
+	w.pending = append(w.pending, b...)
+	return len(b), nil
+}
+
+// commit sends the response head, applying the early-response rule first.
+func (w *memRespWriter) commit() {
+	if w.committed {
+		return
+	}
+	w.committed = true
+	if !w.wroteHeader {
+		w.WriteHeader(http.StatusOK)
+	}
+	rb := w.rb
+	sawEOF, closed := rb.state()
+	if !sawEOF && !closed {
+		alt := 0
+		if w.c.t.giveUp {
+			alt = mc.Choose(2, "early-response(discard|giveup)")
+		}
+		if alt == 0 {
+			// consume the rest of the request body before replying
+			buf := make([]byte, 4096)
+			for {
+				_, err := rb.Read(buf)
+				if err == io.EOF {
+					rb.Close()
+					break
+				}
+				if err != nil {
+					w.closeAfter = true
+					break
+				}
+			}
+		} else {
+			w.closeAfter = true
+		}
+	} else if closed && !sawEOF {
+		w.closeAfter = true
+	}
+	w.c.status = w.status
+	h := w.snapshot
+	if h.Get("Content-Type") == "" && len(w.pending) > 0 {
+		h.Set("Content-Type", "text/plain; charset=utf-8")
+	}
+	w.c.header = h
+	mc.Close(w.c.hdrCh)
+}
+
+func (w *memRespWriter) Flush() {
+	w.commit()
+	if len(w.pending) > 0 {
+		if !w.broken && !w.c.isClosed() {
+			mc.Send(w.c.respCh, w.pending)
+		} else {
+			w.broken = true
+		}
+		w.pending = nil
+	}
+}
+
+func (w *memRespWriter) finishRequest() {
+	w.Flush()
+	// the terminating chunk / the end of a Content-Length body only arrives
+	// over a connection that is still up
+	if !w.broken && !w.c.isClosed() {
+		mc.Close(w.c.respCh)
+	}
+	w.rb.Close()
+	if w.closeAfter {
+		w.c.closeConn()
+	}
+}
+
+// ---- client side response body
+
+type memRespBody struct {
+	c      *memConn
+	ctx    context.Context
+	left   []byte
+	eof    bool
+	closed bool
+}
+
+func (b *memRespBody) Read(p []byte) (int, error) {
+	if b.closed {
+		return 0, fmt.Errorf("http: read on closed response body")
+	}
+	if len(p) == 0 {
+		return 0, nil
+	}
+	if len(b.left) == 0 {
+		if b.eof {
+			return 0, io.EOF
+		}
+		data := mc.RecvCase(b.c.respCh)
+		switch mc.Select(false, data, mc.RecvCase(b.c.connClosed)) {
+		case 0:
+			if !data.Ok {
+				b.eof = true
+				b.c.finish()
+				return 0, io.EOF
+			}
+			b.left = data.Val
+		default:
+			b.c.finish()
+			if err := b.ctx.Err(); err != nil {
+				return 0, err
+			}
+			return 0, io.ErrUnexpectedEOF
+		}
+	}
+	n := copy(p, b.left)
+	b.left = b.left[n:]
+	return n, nil
+}
+
+func (b *memRespBody) Close() error {
+	b.closed = true
+	if !b.eof {
+		// closing an unread body tears the connection down
+		b.c.closeConn()
+	}
+	b.c.finish()
+	return nil
+}
+
+var _ = strings.TrimSpace
